@@ -84,6 +84,19 @@ fn k_fixed_drain(depth: u8, m: usize) {
   assert!(sr == expected, "C15: builder output does not cover exactly the pushed cells with the requested flag");
 }
 
+/// Inductive step across a buffer flush (see p_fixed_merge): accumulated BMOC = one symbolic cell of any depth <= depth, buffer = one
+/// symbolic cell. Covers the case "flushed cell inside / next to a merged coarse cell" that needs >= 5 pushes end to end.
+fn k_fixed_merge(depth: u8) {
+  let is_full: bool = kani::any();
+  let d0: u8 = kani::any();
+  let h0: u64 = kani::any();
+  let p0: u64 = kani::any();
+  let c: u64 = kani::any();
+  kani::assume(d0 <= depth && h0 < spec_n_hash(d0) && p0 < spec_n_hash(depth) && c < spec_n_hash(depth));
+  kani::cover!(d0 < depth && (p0 >> (2 * (depth - d0) as u32)) == h0, "flushed cell inside the accumulated coarse cell");
+  p_fixed_merge(depth, is_full, d0, h0, p0, c);
+}
+
 /// Model of `slice::sort_unstable` (environment: std) for the fixed-depth builder harnesses: an insertion sort on at most 4
 /// elements, the bound being asserted. The std implementation (pattern-defeating quicksort + recursion) is out of reach of the
 /// symbolic execution even for 2 elements (symbolic length).
